@@ -136,7 +136,7 @@ ensures
     # source_file.rs: the reporting interface hands out the diagnostic's own range
     sf = U.file('crates/oq3_source_file/src/source_file.rs')
     sf.fn('range_to_span', ret='r', props=P, spec='ensures r.start == range.start.raw, r.end == range.end.raw,      //@C12:printed-span-is-the-range')
-    sf.guard('have_syntax_errors', None, block=r'pub trait SourceTrait\b', why='SourceTrait::have_syntax_errors ("this file or any included file has a syntax diagnostic") is a trait default method that recurses through its own impl: Verus rejects the shape')
+    # (SourceTrait::have_syntax_errors is verified in unit SEMA: D40)
     sf.item('trait', 'ErrorTrait')
     sf.impl('ErrorTrait for oq3_syntax::SyntaxError', [
         ('message', dict(props=P, trusted=True, note='&str -> String (to_string)')),
@@ -240,7 +240,7 @@ ensures
     # no contract, pinned so that a change is "no verdict" rather than a silent pass
     _n = 0
     for _fc in (se, sn, sf, ap, f, va):
-        _n += _fc.guard_rest('not read by any contract of unit SYNX: text pinned')
+        _n += _fc.guard_rest('not read by any contract of unit SYNX: text pinned', skip=(('SourceTrait', 'have_syntax_errors'),))
     # oq3_lexer/src/unescape.rs (escape scanning behind validate_literal's callbacks; closures over FnMut): pinned as a whole
     U.file('crates/oq3_lexer/src/unescape.rs').guard_file('escape scanning used by validate_literal (callbacks over FnMut): not verified; pinned as a whole')
     _n += 1
